@@ -66,4 +66,43 @@ theorem chunkOK_spec (lo n d : Nat) (h : chunkOK lo n = true) (h1 : lo ≤ d) (h
   have e : lo + (d - lo) = d := by omega
   rwa [e] at this
 
+/-! ## The preflop layer (169 classes kept as centroids; `Layer::metric` stores their distances too) -/
+/-- `entries` over an arbitrary list of `(street, bucket count)` -/
+def entriesOf (L : List (Nat × Nat)) (d : Nat) : List (Nat × Nat × Nat) :=
+  L.flatMap (fun sk => (List.range sk.2).filterMap (fun i =>
+    if i < i ^^^ d ∧ i ^^^ d < sk.2 then force (fastKey sk.1 i (i ^^^ d)) (fun k => some (sk.1, i, k)) else none))
+theorem entries_eq (d : Nat) : entries d = entriesOf learned d := rfl
+/-- the preflop layer alone -/
+def prefLayer : List (Nat × Nat) := [(0, nAbstractions 0)]
+/-- all four streets (`Metric::sources`: the four files go into one table keyed by `xor`) -/
+def fourLayers : List (Nat × Nat) := (0, nAbstractions 0) :: learned
+
+theorem mem_entriesOf (L : List (Nat × Nat)) (s k i j : Nat) (hL : (s, k) ∈ L) (hij : i < j) (hj : j < k) :
+    (s, i, fastKey s i j) ∈ entriesOf L (i ^^^ j) := by
+  have hx : i ^^^ (i ^^^ j) = j := by rw [← Nat.xor_assoc, Nat.xor_self, Nat.zero_xor]
+  unfold entriesOf
+  rw [List.mem_flatMap]
+  refine ⟨(s, k), hL, ?_⟩
+  rw [List.mem_filterMap]
+  refine ⟨i, List.mem_range.mpr (by omega), ?_⟩
+  simp only [hx, hij, hj, and_self, if_true, force_eq]
+
+/-- the preflop keys of `lo ≤ d < lo + n` are pairwise distinct within each `d` -/
+def chunkOKP (lo n : Nat) : Bool := (List.range n).all (fun t => rdx 44 (entriesOf prefLayer (lo + t)))
+
+theorem chunkOKP_spec (lo n d : Nat) (h : chunkOKP lo n = true) (h1 : lo ≤ d) (h2 : d < lo + n) :
+    rdx 44 (entriesOf prefLayer d) = true := by
+  unfold chunkOKP at h
+  rw [List.all_eq_true] at h
+  have := h (d - lo) (List.mem_range.mpr (by omega))
+  have e : lo + (d - lo) = d := by omega
+  rwa [e] at this
+
+/-- pairs of entries of one `d`-group that share a key (executable; used to list the cross-street
+collisions of the four-street table) -/
+def collisions (L : List (Nat × Nat)) (d : Nat) : List ((Nat × Nat × Nat) × (Nat × Nat × Nat)) :=
+  let es := entriesOf L d
+  es.flatMap (fun a => es.filterMap (fun b =>
+    if a.2.2 = b.2.2 ∧ a.1 * 4096 + a.2.1 < b.1 * 4096 + b.2.1 then some (a, b) else none))
+
 end RP.Codec
